@@ -30,7 +30,10 @@ def mdo (x : MSt) (st : MStep) : MSt := { x with m := mdoT x.st.u x.m st }
 
 /-- Process one message; print `illegal <line>` when the side conditions of the legality theorems do not hold. -/
 def mdoC (x : MSt) (st : MStep) (line : String) : MSt × List String :=
-  (mdo x st, if stepOKb x.st.u x.m st then [] else ["illegal " ++ line])
+  (mdo x st,
+    (if stepOKb x.st.u x.m st then [] else ["illegal " ++ line]) ++
+    -- `StepFin`: the message names a configured item and effects of its type (then `mdoT` is `mstep`: `mdoT_toM`)
+    (if stepFinb x.st.u x.m st then [] else ["unnamed " ++ line]))
 
 def mstepLine (x : MSt) (line : String) : MSt × List String :=
   let bad := (x, ["bad-op " ++ line])
